@@ -6,6 +6,11 @@ int main(void)
 	int i;
 	char *s;
 	printf("const NGRPS %d\nconst NREPS %d\nconst NDEPT %d\n", NGRPS, NREPS, NDEPT);
+#ifdef NINST		/* instruction limit of regcomp (absent before the fix: no limit) */
+	printf("const NINST %d\n", NINST);
+#else
+	printf("const NINST -1\n");
+#endif
 	printf("const REG_ICASE %d\nconst REG_NEWLINE %d\nconst REG_NOTBOL %d\nconst REG_NOTEOL %d\n",
 		REG_ICASE, REG_NEWLINE, REG_NOTBOL, REG_NOTEOL);
 	for (i = 0; i < LEN(brk_classes); i++) {
